@@ -194,4 +194,78 @@ theorem rawCensus_eq_generated (x : Input) (k : Int) (r c : Int) :
 
 example : KernelsMcCost.censusCost 0x1FFFFFF 0x1555555 = 12 := by decide +kernel
 
+/-! ## (3c) zncc -/
+
+/-- the covariance numerator: mean of the product minus the product of the means -/
+theorem znccCov_eq (meanLR meanL meanR : ℚ) : KernelsMcCost.znccCov meanLR meanL meanR = meanLR - meanL * meanR := by
+  unfold KernelsMcCost.znccCov
+  first | rfl | ring
+
+/-- `apply_divide_standard` on one cell: divided where the product of the standard deviations is positive, zero elsewhere -/
+theorem divideStandardCell_eq (cov d : ℚ) :
+    KernelsMcCost.divideStandardCell cov d = if d > 0 then (cov, some d) else (0, none) := by
+  unfold KernelsMcCost.divideStandardCell KernelsMcCost.divideStandardValid KernelsMcCost.divideStandardZero
+  by_cases h : d > 0
+  · have h2 : ¬ d ≤ 0 := not_le.mpr h
+    simp [h, h2]
+  · have h2 : d ≤ 0 := not_lt.mp h
+    simp [h, h2]
+
+/-- the two masks partition the cells: every cell is either divided or set to zero, never both, never neither -/
+theorem divideStandard_partition (d : ℚ) : KernelsMcCost.divideStandardValid d = !KernelsMcCost.divideStandardZero d := by
+  unfold KernelsMcCost.divideStandardValid KernelsMcCost.divideStandardZero
+  by_cases h : d > 0
+  · have h2 : ¬ d ≤ 0 := not_le.mpr h
+    simp [h, h2]
+  · have h2 : d ≤ 0 := not_lt.mp h
+    simp [h, h2]
+
+/-- how the model carries a cell of `apply_divide_standard`: the quotient `cov / √vv` symbolically -/
+def cellOf (vv : ℚ) : ℚ × Option ℚ → Cell
+  | (c, some _) => Cell.zn c vv
+  | (c, none) => Cell.num c
+
+/-- **the zero-variance rule**: with `stdL`, `stdR` the (non-negative) square roots of the two variances, the regenerated
+    `apply_divide_standard` gives the model's cell `if varL·varR > 0 then zn cov (varL·varR) else 0` -/
+theorem divideStandard_eq_model (cov stdL stdR varL varR : ℚ) (hl : 0 ≤ stdL) (hr : 0 ≤ stdR)
+    (hvl : stdL * stdL = varL) (hvr : stdR * stdR = varR) :
+    cellOf (varL * varR) (KernelsMcCost.divideStandardCell cov (KernelsMcCost.divideStandardD stdL stdR))
+      = if varL * varR > 0 then Cell.zn cov (varL * varR) else Cell.num 0 := by
+  rw [divideStandardCell_eq]
+  have hd : KernelsMcCost.divideStandardD stdL stdR = stdL * stdR := by
+    unfold KernelsMcCost.divideStandardD; first | rfl | ring
+  rw [hd]
+  have hsq : varL * varR = (stdL * stdR) * (stdL * stdR) := by rw [← hvl, ← hvr]; ring
+  have hnn : 0 ≤ stdL * stdR := mul_nonneg hl hr
+  by_cases h : stdL * stdR > 0
+  · have : varL * varR > 0 := by rw [hsq]; exact mul_pos h h
+    simp [h, this, cellOf]
+  · have h0 : stdL * stdR = 0 := le_antisymm (not_lt.mp h) hnn
+    have : ¬ (varL * varR > 0) := by rw [hsq, h0]; simp
+    simp [h, this, cellOf]
+
+/-- non-vacuity of the hypotheses, both cases -/
+example : cellOf (4 * 9) (KernelsMcCost.divideStandardCell 5 (KernelsMcCost.divideStandardD 2 3)) = Cell.zn 5 36 := by decide +kernel
+example : cellOf (0 * 9) (KernelsMcCost.divideStandardCell 5 (KernelsMcCost.divideStandardD 0 3)) = Cell.num 0 := by decide +kernel
+
+/-- the radicand of `compute_std_raster`: `var = E[x²] − E[x]²`, then 0 where `var < 10⁻¹⁵·|E[x²]|` -/
+def stdRadicand (m2 m : ℚ) : ℚ :=
+  let v := KernelsMcCost.stdVar m2 m 0
+  if KernelsMcCost.stdVarTiny m2 m v then 0 else v
+
+/-- … is the model's `varRaster` on the two mean rasters -/
+theorem stdRadicand_eq_model (w : Nat) (f : Int → Int → ℚ) (i j : Int) :
+    varRaster w f i j = stdRadicand (meanRaster w (fun r c => f r c * f r c) i j) (meanRaster w f i j) := by
+  unfold varRaster stdRadicand KernelsMcCost.stdVar KernelsMcCost.stdVarTiny
+  simp only [rpow_two, rabs_eq, tiny, decide_eq_true_eq]
+  rfl
+
+/-- a cell of the model's zncc plane that is computed, written with the regenerated covariance and zero-variance rule
+    (`stdL`, `stdR` any non-negative roots of the two radicands — no root is taken in Lean) -/
+theorem rawZncc_cell_eq_generated (mp ml mr varL varR stdL stdR : ℚ) (hl : 0 ≤ stdL) (hr : 0 ≤ stdR)
+    (hvl : stdL * stdL = varL) (hvr : stdR * stdR = varR) :
+    (if varL * varR > 0 then Cell.zn (mp - ml * mr) (varL * varR) else Cell.num 0)
+      = cellOf (varL * varR) (KernelsMcCost.divideStandardCell (KernelsMcCost.znccCov mp ml mr) (KernelsMcCost.divideStandardD stdL stdR)) := by
+  rw [divideStandard_eq_model _ stdL stdR varL varR hl hr hvl hvr, znccCov_eq]
+
 end Pandora.C02KernelsMcCost
